@@ -138,6 +138,7 @@ def build(tier, seed):
         sc._obs_sharing_wires, sc._obs_sharing_wires_id = None, None
         if "hash" in f:
             _ = sc.hash                 # memoise the fingerprint, as an earlier cached execution would have done
+            _ = sc.graph                # ... and the circuit graph (tape.specs / drawing)
         return sc
     w.stub_realize = {"Operator": real_op, "MeasurementProcess": real_mp, "QuantumScript": real_script}
 
@@ -159,6 +160,7 @@ def build(tier, seed):
                           "_batch_size": -1, "_obs_sharing_wires": None, "_obs_sharing_wires_id": None})
             if memo:
                 r.f["hash"] = z3.Const(ctx.fresh_name("memoised_hash"), LabelSort)
+                r.f["_graph"] = z3.Const(ctx.fresh_name("memoised_graph"), LabelSort)
             return r
 
         def gen(rng):
@@ -411,7 +413,8 @@ def build(tier, seed):
                 for label, kw in (("plain", {}), ("copy_operations", {"copy_operations": True}), ("shots", {"shots": "S"}),
                                   ("trainable_params", {"trainable_params": "T"}), ("operations", {"operations": "O"}),
                                   ("ops", {"ops": "O"}), ("measurements", {"measurements": "M"}),
-                                  ("operations+measurements", {"operations": "O", "measurements": "M"})):
+                                  ("operations+measurements", {"operations": "O", "measurements": "M"}),
+                                  ("operations-empty", {"operations": "E"}), ("measurements-empty", {"measurements": "E"})):
                     if "trainable_params" in kw and npar == 0:
                         continue        # no valid index to hand over on a parameter-free circuit
                     params = {"self": script_t(shape, tr, memo=(si in (1, 4) and tr is None))}
@@ -419,6 +422,10 @@ def build(tier, seed):
                         params["copy_operations"] = T("const", True)
                     upd = {}
                     new_shape_ops, new_shape_meas = (1, 0), (None, 1)     # replacement lists: two operations / two measurements
+                    if kw.get("operations") == "E":
+                        new_shape_ops = ()                                # ... or an EMPTY list (falsy: `if update.get(...)` traps)
+                    if kw.get("measurements") == "E":
+                        new_shape_meas = ()
                     if "shots" in kw:
                         params["new_shots"] = Label
                         upd["shots"] = "new_shots"
@@ -426,17 +433,17 @@ def build(tier, seed):
                         params["new_trainable"] = int_list_t(1, 0, max(npar - 1, 0))
                         upd["trainable_params"] = "new_trainable"
                     if "operations" in kw or "ops" in kw:
-                        params["new_ops"] = T("build", lambda ctx, name: PyList([Rec(OP, {"data": tuple(z3.Const(ctx.fresh_name(f"nop{i}.p{j}"), LabelSort) for j in range(c)),
+                        params["new_ops"] = T("build", lambda ctx, name, new_shape_ops=new_shape_ops: PyList([Rec(OP, {"data": tuple(z3.Const(ctx.fresh_name(f"nop{i}.p{j}"), LabelSort) for j in range(c)),
                                                                                            "ident": z3.Const(ctx.fresh_name(f"nop{i}.id"), LabelSort)})
                                                                                   for i, c in enumerate(new_shape_ops)]),
-                                              gen=lambda rng: [{"__class__": "Operator", "data": tuple(f"L{rng.randint(100, 140)}" for _ in range(c)), "ident": f"L{rng.randint(0, 5)}"}
+                                              gen=lambda rng, new_shape_ops=new_shape_ops: [{"__class__": "Operator", "data": tuple(f"L{rng.randint(100, 140)}" for _ in range(c)), "ident": f"L{rng.randint(0, 5)}"}
                                                                for c in new_shape_ops])
                         upd["ops" if "ops" in kw else "operations"] = "new_ops"
                     if "measurements" in kw:
-                        params["new_meas"] = T("build", lambda ctx, name: PyList([Rec(MP, {"obs": None if c is None else Rec(OP, {
+                        params["new_meas"] = T("build", lambda ctx, name, new_shape_meas=new_shape_meas: PyList([Rec(MP, {"obs": None if c is None else Rec(OP, {
                             "data": tuple(z3.Const(ctx.fresh_name(f"nobs{i}.p{j}"), LabelSort) for j in range(c)),
                             "ident": z3.Const(ctx.fresh_name(f"nobs{i}.id"), LabelSort)})}) for i, c in enumerate(new_shape_meas)]),
-                                               gen=lambda rng: [{"__class__": "MeasurementProcess", "obs": None if c is None else
+                                               gen=lambda rng, new_shape_meas=new_shape_meas: [{"__class__": "MeasurementProcess", "obs": None if c is None else
                                                                  {"__class__": "Operator", "data": tuple(f"L{rng.randint(150, 190)}" for _ in range(c)), "ident": f"L{rng.randint(0, 5)}"}}
                                                                 for c in new_shape_meas])
                         upd["measurements"] = "new_meas"
@@ -447,6 +454,14 @@ def build(tier, seed):
                         conj = [unchanged_mod_trainable(o.self, n.self), ops_list_fresh(r, n.self), valid_trainable(r)]
                         # C05: a memoised fingerprint may only travel with the copy when operations, measurements, trainable
                         # indices and shots are all the original's (the fingerprint is a function of exactly these)
+                        # a memoised circuit graph is a function of operations and measurements: it may only travel with a
+                        # plain copy (no update, operators not re-created)
+                        g_new = r.f.get("_graph") if sym(r) else r._graph
+                        g_old = o.self.f.get("_graph") if sym(o.self) else o.self._graph
+                        if set(upd) & {"operations", "ops", "measurements"}:
+                            conj.append(g_new is None)                  # the circuit changed: no stale graph, also for EMPTY replacement lists
+                        else:
+                            conj.append(g_new is None or (g_old is not None and (eq(g_new, g_old) if sym(r) else (g_new is g_old or getattr(g_old, "_vf_origin", g_old) is g_new))))
                         if has_memo(r):
                             conj.append(has_memo(o.self) and eq(memo_of(r), memo_of(o.self)) and not (set(upd) & {"shots", "trainable_params", "operations", "ops", "measurements"}))
                         deep = bool(kw)       # copy_operations=True or any update: operators are shallow-copied
